@@ -126,6 +126,14 @@ CLAIMED = {
         technique="Lean 4 proof (decide +kernel over generated schemas, symbolic evaluation of the translation) + differential vs real receive path and callback handler, all versions",
         note="The role ↔ field-name map of the two naming families is part of the trusted base. zigpy.util.Requests is shimmed to construct the application. ",
     ),
+    "C14": dict(
+        text="Model of write_network_info / load_network_info with the per-version accessors (link keys via addOrUpdateKeyTableEntry below 13 and importLinkKey from 13, frame counters from 5, child data from 9, hashed TC link key above 4) as programs over an abstract NCP store. Theorems: for every version, key table size, settings with at most K link keys for distinct partners and (v ≤ 4 or the well-known TC link key) the read-back returns PAN/extended PAN/channel/mask/update ID, network key and sequence, frame counter (v ≥ 5), the link keys in order, the children (v ≥ 9), the TC link key, and above 4 the hashed key in the stack-specific data (supplied or generated); the security state sent carries the supplied key/sequence and the hashed flag iff v > 4; "
+        "decide +kernel over generated tables: for every version 4..14 and every accessor / send wrapper, the implementation the handler's MRO resolves to (reflection) awaits only commands (read off its syntax tree) that exist in that version with the argument names and response field order it was written against, and unpacks each response into exactly as many names as that version's response has fields; and the negative: above 4 a non-well-known TC link key is not what the read-back reports (known finding). "
+        "Tie: generated command, accessor-definer and awaited-command tables + the real ControllerApplication.write_network_info / load_network_info over the real EZSP and version handlers 4..14 against a stateful command-level NCP store that builds responses by field name; loaded state and security state compared with the model, oracle = the property's field list.",
+        ref="6 C14",
+        technique="Lean 4 proof (list induction for the key table, decide +kernel over generated/AST-derived accessor tables) + differential vs real write/load over a stateful NCP store, all versions",
+        note="partial: what an NCP stores and reports (harness/ncpstore.py, BV.NetInfo.Ncp) is my specification of the firmware, not verified code; known finding recorded: custom TC link key on v>4. ",
+    ),
     "C15": dict(
         text="Inductive invariant (groups distinct; every host entry programmed non-zero at its index; every free index cleared; free ∪ used covers the table) proved for every "
         "operation sequence over {start-up, subscribe, unsubscribe}, every table size, every initial table with each group at most once, every answer {OK, rejection, timeout} and every "
